@@ -150,6 +150,7 @@ ENUMS = {'Option': ['None', 'Some'], 'Result': ['Ok', 'Err'], 'ControlFlow': ['C
 STRUCTS = {}
 UNIT_STRUCTS = set()
 VARIANT_KIND = {}      # (enum, variant) -> 'unit' | 'tuple' | 'struct'
+GENERICS = {}          # fn name -> list of its own type-parameter names (None when ambiguous)
 
 
 def _strip_rust(src):
@@ -242,6 +243,17 @@ def load_source_types(root):
             STRUCTS.setdefault(m.group(1), []).append(fs)
         for m in re.finditer(r'\bstruct (\w+);', src):
             UNIT_STRUCTS.add(m.group(1))
+        for m in re.finditer(r'\bfn\s+(\w+)\s*<([^>{(]*)>\s*\(', src):
+            names = []
+            for part in M.split_top(m.group(2)):
+                part = part.strip()
+                if part.startswith("'") or part.startswith('const '):
+                    continue
+                names.append(re.match(r'(\w+)', part).group(1))
+            if m.group(1) in GENERICS and GENERICS[m.group(1)] != names:
+                GENERICS[m.group(1)] = None
+            else:
+                GENERICS[m.group(1)] = names
 
 
 def load_std_enums():
@@ -366,6 +378,7 @@ class Machine:
         self.departure_budget = None
         self.dep_selectors = {}      # selector name -> z3 var (QName retargeting selectors)
         self.dep_counted = set()
+        self.subst = [{}]            # generic parameter -> concrete type text of the function being interpreted
         cached = Machine._index_memo.get(id(bodies))
         if cached is not None:
             self.closures, self.impl_list, self.impls = cached
@@ -902,7 +915,18 @@ class Machine:
                 return r
         b = self.resolve(callee, args)
         if b is not None:
-            return self.run(b, args)
+            sub = self.generic_subst(callee)
+            if sub:
+                self.subst.append(sub)
+                try:
+                    return self.run(b, args)
+                finally:
+                    self.subst.pop()
+            self.subst.append({})
+            try:
+                return self.run(b, args)
+            finally:
+                self.subst.pop()
         # generic dispatch on a type parameter (W, C, T, YI ...): resolve by the runtime value
         m = re.match(r"<([A-Z]\w{0,2}) as ([\w:]+)(?:<.*>)?>::(\w+)$", strip_generics(callee))
         if m and args:
@@ -910,6 +934,26 @@ class Machine:
             if r is not NotImplemented:
                 return r
         return self.model(callee, args)
+
+    def generic_subst(self, callee):
+        """type arguments of a call `name::<A, B>(..)` bound to the callee's own type-parameter names"""
+        m = re.search(r'(\w+)::<(.*)>$', callee)
+        if not m:
+            return None
+        names = GENERICS.get(m.group(1))
+        if not names:
+            return None
+        tys = [t for t in M.split_top(m.group(2)) if not t.startswith("'")]
+        if len(tys) != len(names):
+            return None
+        cur = self.subst[-1]
+        return {n: self.apply_subst(t, cur) for n, t in zip(names, tys)}
+
+    @staticmethod
+    def apply_subst(text, sub):
+        if not sub:
+            return text
+        return re.sub(r'\b(' + '|'.join(map(re.escape, sub)) + r')\b', lambda mm: sub[mm.group(1)], text)
 
     def dispatch_generic(self, trait, meth, args):
         v = deref(args[0])
@@ -985,6 +1029,8 @@ class Machine:
                 bb = self.switch(v, t[2], t[3])
             elif k == 'call':
                 callee = t[2]
+                if self.subst[-1] and '<' in callee:
+                    callee = self.apply_subst(callee, self.subst[-1])
                 cargs = [self.operand(fr, a) for a in t[3]]
                 if callee.startswith('move ') or callee.startswith('copy '):
                     # call through a fn pointer / closure held in a local
